@@ -223,3 +223,4 @@ def run(fb, rep, tier, cfg):
     from . import r12h
     r12h.r12h(fb, rep)
     r12h.r12i(fb, rep)
+    r12h.r12j(fb, rep)
